@@ -1,12 +1,16 @@
 #!/bin/bash
 # Regression over every stored seeded change: applies seeded/<id>/patch.diff to a scratch copy of /repo and runs
-# the check of its property. One line per change: id, caught/missed, classes.
+# the check(s) that caught it when it was stored. One line per change: id, violation lines, classes.
+# usage: run_all_seeded.sh [parallel jobs, default 3]
 cd /verif
-for d in seeded/*/; do
-  id=$(basename $d)
-  prop=$(/venv/bin/python -c "import json;print(json.load(open('$d/meta.json'))['property'])")
-  out=$(tools/seed_eval.sh $d $prop ${1:-} 2>&1 | grep -v conda | grep "^RESULT")
-  nviol=$(echo "$out" | grep -oE "$prop:[0-9]+" | cut -d: -f2)
+one() {
+  d=$1; id=$(basename $d)
+  props=$(/venv/bin/python -c "import json;m=json.load(open('$d/meta.json'));print(','.join(m['caught_by']) or m['property'])")
+  out=$(tools/seed_eval.sh $d $props 2>&1 | grep -v conda | grep "^RESULT")
+  total=0
+  for n in $(echo "$out" | grep -oE "C[0-9][0-9]:[0-9]+" | cut -d: -f2); do total=$((total + n)); done
   classes=$(echo "$out" | grep -oE "class=[A-Za-z0-9.-]+" | sort -u | tr '\n' ' ')
-  echo "$id $prop violations_lines=${nviol:-?} $classes"
-done
+  echo "$id $props violations_lines=$total $classes"
+}
+export -f one
+ls -d seeded/*/ | xargs -P ${1:-3} -I{} bash -c 'one {}'
